@@ -81,6 +81,7 @@ func (b *decimal) set(s []byte) (ok bool) {
 	// digits
 	sawdot := false
 	sawdigits := false
+	dropped := 0 // integer digits that did not fit in b.d; they still move the decimal point
 	for ; i < len(s); i++ {
 		switch {
 		case s[i] == '_':
@@ -103,8 +104,13 @@ func (b *decimal) set(s []byte) (ok bool) {
 			if b.nd < len(b.d) {
 				b.d[b.nd] = s[i]
 				b.nd++
-			} else if s[i] != '0' {
-				b.trunc = true
+			} else {
+				if s[i] != '0' {
+					b.trunc = true
+				}
+				if !sawdot {
+					dropped++
+				}
 			}
 			continue
 		}
@@ -116,6 +122,7 @@ func (b *decimal) set(s []byte) (ok bool) {
 	if !sawdot {
 		b.dp = b.nd
 	}
+	b.dp += dropped
 
 	// optional exponent moves decimal point.
 	// if we read a very large, very long number,
